@@ -18,9 +18,10 @@ UUID_LHS = bytes(range(16)) + b"\x01\x00"
 
 def _wf_params(tier):
     out = [dict(n=0, r=0, tcp=-1)]
-    for n in ([1, 2, 3] if tier == "quick" else [1, 2, 3, 4, 5, 6]):
+    for n in ([1, 2, 3] if tier == "quick" else [1, 2, 3, 4]):
         for r in range(8):
-            for tcp in ([-1, 0, n - 1] if tier == "quick" else range(-1, n)):
+            # every tower forks over the known protocol ids: the number of paths grows as ~6^n, which bounds n
+            for tcp in ([-1, 0, n - 1] if tier == "quick" or n == 4 else range(-1, n)):
                 d = dict(n=n, r=r, tcp=tcp)
                 if d not in out:
                     out.append(d)
@@ -28,7 +29,7 @@ def _wf_params(tier):
 
 
 @harness(P, params=_wf_params, max_steps=100000,
-         bounds="well-formed replies with 0..3 (quick) / 0..6 (thorough) towers; every tower = [floor with symbolic protocol id and r-byte symbolic RHS (r = 0..7, so "
+         bounds="well-formed replies with 0..3 (quick) / 0..4 (thorough) towers; every tower = [floor with symbolic protocol id and r-byte symbolic RHS (r = 0..7, so "
          "every tower length residue mod 8), optional TCP floor with symbolic port in tower `tcp`, UUID floor]; status symbolic 32-bit; entry handle symbolic",
          outside="more towers; floors of known protocols with malformed payloads", must_reach=("port of the first tower with a TCP floor", "towers decoded"))
 def wellformed(c, n, r, tcp):
@@ -68,11 +69,11 @@ def wellformed(c, n, r, tcp):
 
 
 def _arb_params(tier):
-    return [dict(body=b) for b in ([0, 14, 24] if tier == "quick" else [0, 8, 14, 19, 24, 32, 40])]
+    return [dict(body=b) for b in ([0, 14, 24] if tier == "quick" else [0, 8, 14, 19, 24, 28])]
 
 
 @harness(P, params=_arb_params, raises=(Exception,), budget_violation=True, max_steps=4500, native_step_limit=40000,
-         bounds="arbitrary replies: 48-byte header whose tower-count field is a symbolic 64-bit value (0..2^64-1), followed by 0..24 (quick) / 0..40 (thorough) fully "
+         bounds="arbitrary replies: 48-byte header whose tower-count field is a symbolic 64-bit value (0..2^64-1), followed by 0..24 (quick) / 0..28 (thorough) fully "
          "symbolic bytes and a 4-byte status; the decode must end (any outcome) within 4500 interpreted statements", outside="longer arbitrary bodies",
          must_reach=())
 def arbitrary(c, body):
